@@ -769,3 +769,22 @@ Definition res_shaped (m : nat) (v : pv) : bool :=
   end.
 
 End Codec.
+
+(* ---------------------------------------------------------------------------------------------
+   successive Marshal calls.  Every marshaler of every signal (plog/pb.go, plog/json.go, p*otlp/request.go,
+   response.go, ...) writes into a buffer of its own (`bytes.Buffer{}` on the stack, `make([]byte, size)`
+   in the generated Marshal) and returns it: the result of a call is never touched by a later call.
+   A heap of buffers makes that visible: a call allocates a new buffer and returns its handle; the
+   caller looks at all the handles it kept AFTER all the calls. *)
+Section Calls.
+Context {A : Type}.
+Variable enc : A -> bytes.
+Definition cstate : Type := (list bytes * list nat)%type.       (* buffers allocated so far, handles returned so far *)
+Definition call_fresh (s : cstate) (v : A) : cstate := (fst s ++ [enc v], snd s ++ [length (fst s)]).
+Definition run_fresh (vs : list A) : cstate := fold_left call_fresh vs ([], []).
+Definition observe (s : cstate) : list bytes := map (fun i => nth i (fst s) []) (snd s).
+(* what a marshaler that recycles one buffer (a pool) would do — NOT the code; kept for the refutation *)
+Definition call_pooled (s : cstate) (v : A) : cstate :=
+  (match fst s with [] => [enc v] | _ :: r => enc v :: r end, snd s ++ [O]).
+Definition run_pooled (vs : list A) : cstate := fold_left call_pooled vs ([], []).
+End Calls.
